@@ -138,6 +138,14 @@ pub trait MaskObj {
     fn set_indexed(&mut self, name: &str, ordinal: u16) -> Option<()>;
     /// Some(is_some) of the indexed getter
     fn get_indexed(&self, name: &str, ordinal: u16) -> Option<bool>;
+    /// indexed accessor with a value whose members are all distinct; returns the members by name as integers
+    fn set_indexed_value(&mut self, name: &str, ordinal: u16, salt: u64) -> Option<Vec<(&'static str, Vec<u64>)>>;
+    /// does the indexed getter return exactly the value `set_indexed_value` builds for `salt`
+    fn get_indexed_equals(&self, name: &str, ordinal: u16, salt: u64) -> Option<bool>;
+    /// accessor `set_<name>(slot enum, Guid)`; None = no such accessor / ordinal is not a slot
+    fn set_slot_guid(&mut self, name: &str, ordinal: u16, val: u64) -> Option<()>;
+    /// Some(getter result) of the slot accessor
+    fn get_slot_guid(&self, name: &str, ordinal: u16) -> Option<Option<u64>>;
 }
 
 pub struct UmKind {
@@ -148,6 +156,10 @@ pub struct UmKind {
     pub custom: &'static [&'static str],
     /// accessors taking (value struct, index enum)
     pub indexed: &'static [&'static str],
+    /// wowm struct name of the value type of each indexed accessor
+    pub indexed_types: &'static [&'static str],
+    /// accessors taking (slot enum, Guid)
+    pub slotguid: &'static [&'static str],
     pub new: fn() -> Box<dyn MaskObj>,
     /// Builder::new().set_<name>(val).finalize()
     pub build: fn(&str, u64) -> Option<Box<dyn MaskObj>>,
@@ -196,7 +208,7 @@ macro_rules! um_carrier {
 }
 
 macro_rules! um_kind {
-    ($exp:ident, $T:ident, $B:ident, $V:ident, [$(($get:ident, $set:ident, $sig:ident, $hb:tt)),*], custom: [$($c:expr),*], indexed: [$(($iget:ident, $iset:ident, $ival:ty, $iidx:ident)),*]) => {{
+    ($exp:ident, $T:ident, $B:ident, $V:ident, [$(($get:ident, $set:ident, $sig:ident, $hb:tt)),*], custom: [$($c:expr),*], indexed: [$(($iget:ident, $iset:ident, $ival:ty, $iidx:ident, $imk:ident, $isn:expr)),*], slotguid: [$(($sget:ident, $sset:ident, $sty:ty)),*]) => {{
         struct Obj(wow_world_messages::$exp::$T);
         impl MaskObj for Obj {
             fn set(&mut self, name: &str, val: u64) -> bool {
@@ -244,6 +256,42 @@ macro_rules! um_kind {
                 let _ = ordinal;
                 None
             }
+            fn set_indexed_value(&mut self, name: &str, ordinal: u16, salt: u64) -> Option<Vec<(&'static str, Vec<u64>)>> {
+                $( if name == stringify!($iget) {
+                    let idx = <wow_world_messages::$exp::$iidx>::try_from(ordinal).ok()?;
+                    let (v, members) = $imk(salt);
+                    self.0.$iset(v, idx);
+                    return Some(members);
+                } )*
+                let _ = (ordinal, salt);
+                None
+            }
+            fn get_indexed_equals(&self, name: &str, ordinal: u16, salt: u64) -> Option<bool> {
+                $( if name == stringify!($iget) {
+                    let idx = <wow_world_messages::$exp::$iidx>::try_from(ordinal).ok()?;
+                    let (v, _) = $imk(salt);
+                    return Some(self.0.$iget(idx) == Some(v));
+                } )*
+                let _ = (ordinal, salt);
+                None
+            }
+            fn set_slot_guid(&mut self, name: &str, ordinal: u16, val: u64) -> Option<()> {
+                $( if name == stringify!($sget) {
+                    let slot = <$sty as TryFrom<u64>>::try_from(ordinal as u64).ok()?;
+                    self.0.$sset(slot, wow_world_messages::Guid::new(val));
+                    return Some(());
+                } )*
+                let _ = (ordinal, val);
+                None
+            }
+            fn get_slot_guid(&self, name: &str, ordinal: u16) -> Option<Option<u64>> {
+                $( if name == stringify!($sget) {
+                    let slot = <$sty as TryFrom<u64>>::try_from(ordinal as u64).ok()?;
+                    return Some(self.0.$sget(slot).map(|g| g.guid()));
+                } )*
+                let _ = ordinal;
+                None
+            }
         }
         UmKind {
             exp: stringify!($exp),
@@ -251,6 +299,8 @@ macro_rules! um_kind {
             accessors: &[$((stringify!($get), stringify!($sig), $hb)),*],
             custom: &[$($c),*],
             indexed: &[$(stringify!($iget)),*],
+            indexed_types: &[$($isn),*],
+            slotguid: &[$(stringify!($sget)),*],
             new: || Box::new(Obj(<wow_world_messages::$exp::$T>::new())),
             build: |name, val| {
                 $( if name == stringify!($get) { return um_kind!(@builder $hb, $exp, $B, $set, $sig, val).map(|m| Box::new(Obj(m)) as Box<dyn MaskObj>); } )*
